@@ -1004,7 +1004,12 @@ pub fn c10(rec: &RunRecord) -> Vec<Violation> {
             }
         }
         // nothing answers at all => length zero
-        let any_accepted_ever = (0..=k).any(|j| !accepted_in_round(rec, j).is_empty());
+        let any_accepted_ever = if rec.sc.synth.is_some() {
+            // synthetic rounds have no network behind them: "answered" = a completed probe
+            rec.rounds[..=k].iter().any(|r| r.probes.iter().any(|p| matches!(p, ProbeStatus::Complete(_))))
+        } else {
+            (0..=k).any(|j| !accepted_in_round(rec, j).is_empty())
+        };
         if !any_accepted_ever && round.largest_ttl != 0 {
             v.push(Violation::new("C10", "c10.length-without-answer", format!("round {k}: path length {} although nothing has answered", round.largest_ttl)));
         }
